@@ -22,3 +22,27 @@ def run(fn, d, degree, maxdeg):
         print('REPLAY: VIOLATION-CONFIRMED the table does not integrate monomials of degree <= %d exactly' % p)
     else:
         print('REPLAY: not reproduced in float arithmetic (error below 1e-13)')
+
+
+def tensor():
+    """tensor-product Gauss points: exactness on monomials x^a y^b(z^c) with different degrees per factor"""
+    from nutils import element
+    import itertools
+    line, tri = element.getsimplex(1), element.getsimplex(2)
+    for ref, degree, name in [(line * line, (2, 5), 'line*line'), (line * tri, 3, 'line*triangle'), (tri * line, 3, 'triangle*line')]:
+        p = ref.getpoints('gauss', degree)
+        x, w = numpy.asarray(p.coords), numpy.asarray(p.weights)
+        degs = degree if isinstance(degree, tuple) else (degree,) * 2
+        nd1 = 1 if name.startswith('line') else 2
+        for a in itertools.product(range(4), repeat=x.shape[1]):
+            if sum(a[:nd1]) > degs[0] or sum(a[nd1:]) > degs[1]:
+                continue
+            def simplex_int(al):
+                return math.prod(math.factorial(k) for k in al) / math.factorial(sum(al) + len(al))
+            exact = simplex_int(a[:nd1]) * simplex_int(a[nd1:])
+            q = (w * numpy.prod(x ** numpy.array(a), axis=1)).sum()
+            if abs(q - exact) > 1e-12:
+                print('%s gauss %s: monomial %s integrates to %.12g, exact %.12g' % (name, degree, a, q, exact))
+                print('REPLAY: VIOLATION-CONFIRMED tensor-product Gauss points/weights are inconsistent')
+                return
+    print('REPLAY: not reproduced')
